@@ -37,6 +37,8 @@ def main():
         bad = any(ch.tag in ("failure", "error", "skipped") for ch in tc)
         (failed if bad else passed).add(tid)
     os.unlink(xml)
+    # strict: a test counts as passed only if none of its junit entries (call / teardown / xdist duplicates) is a failure or error
+    passed -= failed
     selected = stable if not extra else stable & (passed | failed)
     missing = sorted(selected - passed)
     print("\n".join(tail))
